@@ -76,13 +76,13 @@ theorem putElement_spec {d : Deque} {a : Nat} (ha : a < d.elements.length) :
   simp only at ha
   simp [putElement, store, load, getD_set, ha]
 
-theorem autoReset_spec {d : Deque} (he : d.elements ≠ []) :
-    ∃ d', d.autoReset = some d' ∧ d'.head = 0 ∧ d'.tail = 0 ∧ d'.length = 0 ∧ d'.template = d.template ∧
-      d'.stack = [] ∧ d'.elements.length = 1 := by
+theorem autoReset_spec (d : Deque) :
+    d.autoReset.head = 0 ∧ d.autoReset.tail = 0 ∧ d.autoReset.length = 0 ∧
+      d.autoReset.template = d.template ∧ d.autoReset.stack = [] ∧
+      d.autoReset.elements.length = min 1 d.elements.length := by
   obtain ⟨h, t, l, s, els, tm⟩ := d
-  simp only at he
   cases els with
-  | nil => exact absurd rfl he
+  | nil => simp [autoReset]
   | cons e els => simp [autoReset]
 
 /-! ### doPushBack / doPushFront -/
